@@ -266,7 +266,9 @@ impl<'a, T: IteTable<'a, BddPtr<'a>> + Default> RobddBuilder<'a, T> {
         }
 
         match bdd {
-            BddPtr::Reg(node) => {
+            // a node at level `current` is kept; a node further down the
+            // order skips this level and is handled by the last arm
+            BddPtr::Reg(node) if self.order.borrow().get(node.var) <= current => {
                 let smoothed_node = BddNode::new(
                     node.var,
                     self.smooth_helper(node.low, current + 1, total),
@@ -275,13 +277,10 @@ impl<'a, T: IteTable<'a, BddPtr<'a>> + Default> RobddBuilder<'a, T> {
                 self.get_or_insert(smoothed_node)
             }
             BddPtr::Compl(node) => self.smooth_helper(BddPtr::Reg(node), current, total).neg(),
-            BddPtr::PtrTrue | BddPtr::PtrFalse => {
+            BddPtr::PtrTrue | BddPtr::PtrFalse | BddPtr::Reg(_) => {
                 let var = self.order.borrow().var_at_level(current);
-                let smoothed_node = BddNode::new(
-                    var,
-                    self.smooth_helper(bdd, current + 1, total),
-                    self.smooth_helper(bdd, current + 1, total),
-                );
+                let sub = self.smooth_helper(bdd, current + 1, total);
+                let smoothed_node = BddNode::new(var, sub, sub);
                 self.get_or_insert(smoothed_node)
             }
         }
